@@ -57,6 +57,65 @@ def changed_leaves(a, b):
     return names
 
 
+def clean_process_results(mod, tier, cfg, chosen):
+    """jit(step) of the chosen (state, action) pairs computed by a child process that builds ONLY this configuration; a list
+    aligned with `chosen` (None where it could not be computed: unpicklable harness-side state classes, child failure)."""
+    import os
+    import pickle
+    import subprocess
+
+    from harness.common import PY, VERIF, WORK
+
+    out = [None] * len(chosen)
+    if not chosen:
+        return out
+    os.makedirs(WORK, exist_ok=True)
+    base = os.path.join(WORK, f"c02_clean_{mod}_{os.getpid()}")
+    try:
+        with open(base + ".in", "wb") as f:
+            pickle.dump([to_np((t[4], t[5])) for t in chosen], f)
+    except Exception:  # noqa: BLE001
+        return out
+    env = dict(os.environ)
+    env["PYTHONPATH"] = (os.environ.get("VERIF_REPO", "") + os.pathsep if os.environ.get("VERIF_REPO") else "") + VERIF
+    try:
+        subprocess.run([PY, "-W", "ignore", "-m", "harness.lib.pure_events", "--clean", mod, tier, cfg["id"], base],
+                       capture_output=True, text=True, env=env, cwd=VERIF, timeout=900)
+        with open(base + ".out", "rb") as f:
+            out = pickle.load(f)
+    except Exception:  # noqa: BLE001
+        pass
+    for ext in (".in", ".out"):
+        try:
+            os.remove(base + ext)
+        except OSError:
+            pass
+    return out if len(out) == len(chosen) else [None] * len(chosen)
+
+
+def clean_main(mod, tier, cfg_id, base):
+    import pickle
+
+    import jax
+    import jax.numpy as jnp
+
+    ad = importlib.import_module(f"harness.envs.{mod}").Adapter()
+    cfg = next(c for c in list(ad.configs("quick")) + list(ad.configs(tier)) if c["id"] == cfg_id)
+    env = ad.make(dict(cfg))
+    jstep = jax.jit(env.step)
+    with open(base + ".in", "rb") as f:
+        pairs = pickle.load(f)
+    out = []
+    for (s, a) in pairs:
+        try:
+            s = jax.tree_util.tree_map(jnp.asarray, s)
+            out.append(to_np(jstep(s, jnp.asarray(a))))
+        except Exception:  # noqa: BLE001
+            out.append(None)
+    with open(base + ".out", "wb") as f:
+        pickle.dump(out, f)
+
+
 def drive(mod, tier, seed):
     import jax
     import jax.numpy as jnp
@@ -93,7 +152,20 @@ def drive(mod, tier, seed):
         evs.append(ev)
 
     K = 6 if tier == "quick" else 14
-    for cfg in pick_configs(ad, tier):
+    picked = pick_configs(ad, tier)
+    # process history: the OTHER configurations of this adapter are constructed first (never used), as a program that holds a
+    # training and an evaluation environment does; the eventful transitions are then also replayed in a clean child process
+    # that only ever builds the configuration under test - the results must coincide
+    decoys = 0
+    for c in ad.configs("quick"):
+        if decoys >= 10 or c["id"] in {p["id"] for p in picked} or "inject" in c or any(t in c["id"] for t in ("sweep", "_gen")):
+            continue
+        try:
+            ad.make(dict(c))
+            decoys += 1
+        except Exception:  # noqa: BLE001
+            pass
+    for cfg in picked:
         env = ad.make(cfg)
         name = f"{ad.name}/{cfg['id']}"
         jreset, jstep = jax.jit(env.reset), jax.jit(env.step)
@@ -171,6 +243,14 @@ def drive(mod, tier, seed):
                             "outcome": "raise:" + type(e).__name__, "note": "vmap over the eventful transitions",
                             "detail": str(e)[:200], "cls": -1, "result_d": "none"})
             chosen = chosen_all
+        for res_clean, (score, ch, last, rewarded, s, a) in zip(clean_process_results(mod, tier, cfg, chosen), chosen):
+            if res_clean is None:
+                continue
+            seq[0] += 1
+            d = jsonify.digest(to_np((s, a)))
+            evs.append({"k": "call", "env": name, "fn": "step", "mode": "jit_clean_process", "seq": seq[0], "args_d": d, "args_after_d": d,
+                        "outcome": "ok", "note": f"eventful transition replayed in a process that built nothing else ({decoys} decoys here)",
+                        "detail": "", "cls": memo.cls("step", d, res_clean), "result_d": jsonify.digest(res_clean)})
         for (score, ch, last, rewarded, s, a) in chosen:
             note = f"eventful transition: changed {len(ch)} leaves{', rewarded' if rewarded else ''}{', LAST' if last else ''}"
             call(name, "step", "jit", jstep, (s, a), note=note)
@@ -181,10 +261,13 @@ def drive(mod, tier, seed):
 
 
 def main():
-    mod, tier, seed, out = sys.argv[1:5]
     from harness.common import setup_env
 
     setup_env()
+    if sys.argv[1] == "--clean":
+        clean_main(*sys.argv[2:6])
+        return
+    mod, tier, seed, out = sys.argv[1:5]
     t0 = time.time()
     try:
         evs = drive(mod, tier, int(seed))
